@@ -4,10 +4,7 @@ import vf
 import sendcorr_common as sc
 
 SLACK_MS = 250.0
-KNOWN_BY_SCENARIO = {
-    "c19race-opn-timeout-race": "opn-response-races-renewal-timeout",
-    "c19race-unsolicited-opn": "unsolicited-opn-response-wedges-dispatcher",
-}
+KNOWN_BY_SCENARIO = {}
 
 
 def oracle(c):
@@ -19,7 +16,7 @@ def oracle(c):
     for o in c["outcomes"]:
         if o["code"] >= 0:
             finished_ids.add(o["id"])
-        if o["code"] == 3:
+        if o["code"] == 3 and not c["scenario"].startswith("c19race-"):   # under a forced schedule the controller holds the caller
             bound = o["timeout_ms"] + len_ms
             if o["elapsed_ms"] > bound + slack:
                 fails.append(("timeout-bound-exceeded", "call %d (timeout %.0f ms) returned after %.1f ms > timeout + leniency %.0f ms" % (o["t"], o["timeout_ms"], o["elapsed_ms"], bound)))
@@ -124,7 +121,7 @@ def run(ctx):
     distinct = {json.dumps(c["events"]) for c in cases}
     ctx.coverage.update({
         "evaluations": len(cases), "distinct_nontrivial": len(distinct),
-        "rule": "seeded scenarios against a delaying scripted server: calls with timeouts 20-120 ms (answered / unanswered / answered late), cancellation, disconnect, context already done, failing TCP write; plus 4 forced orderings through the scheduling points (response popped by the dispatcher before/after the timer branch, OPN response racing the renewal timeout, unsolicited OpenSecureChannelResponse); distinct = distinct event histories",
+        "rule": "seeded scenarios against a delaying scripted server: calls with timeouts 20-120 ms (answered / unanswered / answered late), cancellation, disconnect, context already done, failing TCP write; plus 4 forced orderings through the scheduling points (response popped by the dispatcher before/after the timer branch, OPN response racing the renewal timeout, unsolicited OpenSecureChannelResponse: the last two wedged the dispatcher before fix 6070e19 and must now end with a later request answered); distinct = distinct event histories",
         "samples": [{"scenario": c["scenario"], "label": c["label"], "events": c["events"][:12]} for c in cases[:2] + cases[-2:]],
         "cases_by_label": labels, "scenario_errors": len(errors),
         "timeouts_observed": len(to), "timeout_overshoot_ms_max": round(max(to), 2) if to else None,
